@@ -646,8 +646,18 @@ def gen_id_cse(rng):
             "kwargs": {x: sizes[x] for x in inside}, "note": ["cse"]}
 
 
+_DIRECTED = None
+
+
 def base_call(rng):
+    global _DIRECTED
     r = rng.random()
+    if r < 0.12:
+        # structural sweep shared with C01: every subset of bracketed positions for argmax/argmin/sum/flip, diagonals
+        if _DIRECTED is None:
+            from props import c01
+            _DIRECTED = list(c01.directed_calls())
+        return dict(rng.choice(_DIRECTED))
     if r < 0.2:
         return gen_dot_batched(rng)
     if r < 0.32:
@@ -673,6 +683,26 @@ def run(ctx):
     ctx.assumptions.append("C01 (validator + oracle) ties einx's results to the denotation the theorems are about")
     warnings.simplefilter("ignore")
     applicable = {r: 0 for r in RELS}
+    # deterministic structural sweep (shared with C01): every subset of bracketed positions for argmax/argmin/sum/flip and
+    # non-adjacent diagonals, under R2 (permute an input and transpose the tensor) and R3 (permute the output)
+    from props import c01 as _c01
+    for call in _c01.directed_calls():
+        for rel in ("R2", "R3"):
+            args = gen.make_args(call, rng, "rand")
+            tseed = rng.randrange(1 << 30)
+            try:
+                fail = check_pair(ctx, rel, dict(call), args, None, tseed)
+            except Skip:
+                ctx.count(f"directed:{rel}:skipped")
+                continue
+            ctx.case(f"directed {rel} {call['op']} {call['desc']}", True)
+            ctx.count(f"directed:{rel}:{'ok' if fail is None else 'VIOLATED'}")
+            if fail is not None:
+                small = shrink_pair(ctx, rel, dict(call), None, tseed)
+                fail = small or fail
+                ctx.violation(sig_pair(fail), fail)
+        if len(ctx.violations) >= 4:
+            break
     for rel in RELS:
         done = 0
         attempts = 0
